@@ -372,7 +372,9 @@ pub fn replay(args: &[String]) {
             let sc = &scs[case["scenario"].as_u64().unwrap() as usize - 1];
             let plan: String = arr(&case["faults"]).iter().map(|f| format!("{} {}\n", f["at"], f["mode"].as_str().unwrap())).collect();
             let (a, r, k, log) = run_with_plan(sc, &plan, *i);
-            event("plan", &a, &r, false, true, json!({"scenario": format!("{} {}", sc.cmd, sc.name), "plan": plan.trim(), "git_calls": k,
+            let faults = arr(&case["faults"]);
+            let (single_pos, single_mode) = if faults.len() == 1 { (faults[0]["at"].as_u64().unwrap_or(0), faults[0]["mode"].as_str().unwrap_or("").to_string()) } else { (0, String::new()) };
+            event("plan", &a, &r, false, true, json!({"scenario": format!("{} {}", sc.cmd, sc.name), "plan": plan.trim(), "git_calls": k, "single_pos": single_pos, "single_mode": single_mode,
                                                       "faulted_call": log.lines().find(|l| arr(&case["faults"]).iter().any(|f| l.starts_with(&format!("{} ", f["at"])))).unwrap_or("")}))
         } else {
             let (a, stdin, verbose) = concretise(case, &table, &mut rng);
